@@ -11,7 +11,7 @@ RULE = ("3-6 agents sharing one process, each a light stub (name, AgentDef with 
         "1..3, is injected per agent at random points of a random per-channel-FIFO schedule; monitors: independent "
         "evaluation of the acceptance rule at every _accept_replica (remaining capacity >= new footprint + max over "
         "<= k-1 owners of the footprints held for them), replication_done reports; at quiescence: every agent reported, "
-        "hosts distinct, != owner, <= k, recorded in the host's hosted_replicas and in the directory; non-trivial = "
+        "hosts distinct, != owner, <= k, recorded in the host's hosted_replicas and in the directory; plus 16 (quick) / 192 (thorough) resilient thread-mode runs with an agent removal (the C27 harness): once the repair is over and replication has settled again, every computation has <= k replicas, none on its host, all recorded in the directory; non-trivial = "
         ">= 1 replica accepted by an agent already holding replicas of >= 2 owners or 2 of one owner; distinct by "
         "hash(deployment, k, schedule)")
 
@@ -277,9 +277,61 @@ def check(w, status):
     return P
 
 
+def thread_mode_problems(seed, idx):
+    """the replica clauses on the real runtime after an agent removal: a resilient thread-mode run (as in C27), the state
+    once the repair is over and the replication level restored (re-hosted computations replicated again by their new
+    host, replicas lost with the departed agents placed again by their owners)"""
+    from pv.checks import c27
+
+    rng = common.rng_for(seed, "C25-thread", idx)
+    inst = c27.gen_instance(rng)
+    while inst["algo"] == "maxsum":  # known finding of C27: the synchronous maxsum cannot resume after a migration
+        inst = c27.gen_instance(rng)
+    leaving = rng.choice(c27.subsets(inst))
+    r = c27.run_removal(inst, leaving, (seed * 7919 + idx) & 0x7FFFFFFF, second=True)
+    S2 = r.get("second") or {}
+    W = {"thread_mode_instance": inst, "leaving": leaving}
+    if r["errors"] or "replicas_before" not in S2:
+        return [], W, "skipped: %s" % (str(r["errors"][:1] or S2.get("skipped"))[:80])
+    k = inst["k"]
+    owner = {}
+    for a, cs in S2["before"]["hosted"].items():
+        if isinstance(cs, list) and a not in leaving:
+            for c in cs:
+                owner.setdefault(c, a)
+    holders = {c: sorted(a for a, reps in S2["replicas_before"].items() if c in reps) for c in r["computations"]}
+    ctx = " [thread mode, %s, k=%d, after the departure of %r and the repair; hosting %r; replica holders %r; directory %r]" % (
+        inst["algo"], k, leaving, {a: cs for a, cs in S2["before"]["hosted"].items() if a not in leaving}, holders, S2["replica_hosts_before"])
+    P = []
+    for c, hs in holders.items():
+        if len(hs) > k:
+            P.append(("too-many-replicas", "%s has %d replicas for k=%d" % (c, len(hs), k) + ctx))
+        if owner.get(c) in hs:
+            P.append(("owner-hosts-its-replica", "%s is hosted and replicated on %s" % (c, owner.get(c)) + ctx))
+        reg = S2["replica_hosts_before"].get(c)
+        if isinstance(reg, list) and not set(hs) <= set(reg):
+            P.append(("replica-not-in-directory", "%s replicas on %r but the directory lists %r" % (c, hs, reg) + ctx))
+    return P, W, "judged"
+
+
 def worker(job):
     R = common.WorkerResult()
     seed = job["seed"]
+    for t in range(job.get("thread_runs", 0)):
+        idx = job["lo"] * 1000 + t
+        try:
+            P, W, st = thread_mode_problems(seed, idx)
+        except Exception:
+            import traceback
+
+            R.violation("harness:exception", traceback.format_exc()[-900:], {"thread_index": idx})
+            continue
+        R.bump("thread_mode_runs_with_removal", st)
+        seen = set()
+        for key, m in P:
+            if key not in seen:
+                seen.add(key)
+                R.violation(key, m, W)
     for i in range(job["lo"], job["hi"]):
         rng = common.rng_for(seed, "C25", i)
         dep = gen_deployment(rng)
@@ -328,13 +380,17 @@ def main(chk, tier, seed):
                        "bounded progress: 400 x #agents x #computations scheduler steps",
                        "k in the rule = the level passed to replicate(); an agent may be stricter"]
     n = 1500 if tier == "quick" else 64000
-    common.run_chunked(chk, "c25", n, nchunks=16 if tier == "quick" else 64, job_extra={"nsched": 2 if tier == "quick" else 3}, timeout=3000)
+    common.run_chunked(chk, "c25", n, nchunks=16 if tier == "quick" else 64, job_extra={"nsched": 2 if tier == "quick" else 3, "thread_runs": 1 if tier == "quick" else 3}, timeout=3000)
     chk.inconclusive_if(chk.counters.get("accept_replica_calls_checked", 0) < 500, "too few replica acceptances observed")
     chk.inconclusive_if(chk.counters.get("accepts_while_holding_several", 0) < 50, "acceptance rule hardly exercised with several held replicas")
 
 
 def replay(payload):
     w_ = payload["witness"]
+    if "deployment" not in w_:
+        print(payload["what"])
+        print("VIOLATION property=C25 replay=(recorded witness of a thread-mode run)")
+        return 1
     w, status = run_dep(w_["deployment"], w_["sched_seed"])
     P = check(w, status)
     print("replay:", status, P[:3])
